@@ -90,6 +90,52 @@ let () =
               let ((cx, cy), cz) = if kind = "uv" then uv_interp fops c0 c1 lam else v3_interp fops c0 c1 lam in
               let d2 = if kind = "uv" then uv_dist2 fops x ((cx, cy), cz) else v3_dist2 fops x ((cx, cy), cz) in
               Printf.printf "%s ; %s\n" (hex (harm_potential_d2 fops k w d2)) (hexl [cx; cy; cz]))
+         | "GRUN" ->
+           (* GRUN nv {kind w c0 c1}  k chg N nstages accw it0 nev {S|B|R values}  with kind = s | p P c | v3 | uv | q | vl n ;
+              one value = 1 / 3 / 4 / n floats.  Output per event: it E C F ST FS W *)
+           let pi = 4.0 *. atan 1.0 in
+           let nv = ni () in
+           let rd kind = (match kind with
+               | `S -> VS (nf ())
+               | `V3 -> let a = nf () in let b = nf () in let c = nf () in V3 ((a, b), c)
+               | `Q -> let a = nf () in let b = nf () in let c = nf () in let d = nf () in VQ (((a, b), c), d)
+               | `L n -> VL (nflist n)) in
+           let kinds = ref [] and shapes = ref [] and ws = ref [] and c0s = ref [] and c1s = ref [] in
+           for _ = 1 to nv do
+             let kd = next () in
+             let (k, sh) = (match kd with
+                 | "s" -> (KScalar, `S)
+                 | "p" -> let pp = nf () in let c = nf () in (KPeriodic (pp, c), `S)
+                 | "v3" -> (KVec3 (false, None), `V3)
+                 | "uv" -> (KUnit, `V3)
+                 | "q" -> (KQuat, `Q)
+                 | _ -> let n = ni () in (KVector, `L n)) in
+             let w = nf () in
+             let constrain v = (match k, v with
+                 | KUnit, V3 x -> V3 (uv_constrain fops x)
+                 | KQuat, VQ x -> VQ (q_constrain fops x)
+                 | _, _ -> v) in
+             let c0 = constrain (rd sh) in let c1 = constrain (rd sh) in
+             kinds := !kinds @ [k]; shapes := !shapes @ [sh]; ws := !ws @ [w]; c0s := !c0s @ [c0]; c1s := !c1s @ [c1]
+           done;
+           let k = nf () in let chg = nb () in let nsteps = nz () in let nstages = nz () in let accw = nb () in let it0 = nz () in
+           let c = { g_kinds = !kinds; g_widths = !ws; g_c0 = !c0s; g_c1 = !c1s; g_k = k; g_chg = chg;
+                     g_nsteps = nsteps; g_nstages = nstages; g_acc_work = accw; g_it0 = it0 } in
+           let nev = ni () in
+           let evs = List.init nev (fun _ ->
+               let t = next () in let xs = List.map rd !shapes in
+               match t with "S" -> GStep xs | "B" -> GBoundary xs | _ -> GRestart xs) in
+           let m = grun fops pi c evs in
+           let cvs v = (match v with
+               | VS x -> hex x
+               | V3 ((a, b), c) -> String.concat "/" [hex a; hex b; hex c]
+               | VQ (((a, b), c), d) -> String.concat "/" [hex a; hex b; hex c; hex d]
+               | VL l -> String.concat "/" (List.map hex l)) in
+           let cvl l = if l = [] then "-" else String.concat "," (List.map cvs l) in
+           let outs = List.map (fun ((it, s), (e, f)) ->
+               Printf.sprintf "it=%d E=%s C=%s F=%s ST=%d FS=%d W=%s"
+                 (int_of_z it) (hex e) (cvl s.gs_centers) (cvl f) (int_of_z s.gs_stage) (int_of_z s.gs_first) (hex s.gs_W)) m.gm_outs in
+           Printf.printf "%s\n" (String.concat " ; " outs)
          | _ -> Printf.printf "?\n")
       end
     done
